@@ -342,9 +342,11 @@ func RunOpts(srcDir, dstDir string, rewrite bool) (*Descriptor, error) {
 	hb.WriteString("func Blocked() {\n\tif Hook != nil {\n\t\tHook(-2)\n\t}\n}\n\n")
 	hb.WriteString("// Waiting is called before a runtime.Gosched() of the instrumented module (a hand-written wait loop).\n")
 	hb.WriteString("func Waiting() {\n\tif Hook != nil {\n\t\tHook(-3)\n\t}\n}\n\n")
-	hb.WriteString("// gates serialise the x.Do(f) statements of the instrumented module cooperatively (see Enter).\nvar gates [64]struct {\n\tid   int\n\tbusy bool\n}\n\n")
-	hb.WriteString("// Enter tries to pass the gate of a wrapped x.Do(f) statement.  Exactly one simulated task runs at a time,\n// so plain variables are enough; outside a simulation (Hook == nil) the gate is always open.\n//\n//go:norace\nfunc Enter(id int) bool {\n\tif Hook == nil || !Active {\n\t\treturn true\n\t}\n\tfree := -1\n\tfor i := range gates {\n\t\tif gates[i].busy && gates[i].id == id {\n\t\t\treturn false\n\t\t}\n\t\tif !gates[i].busy && free < 0 {\n\t\t\tfree = i\n\t\t}\n\t}\n\tif free >= 0 {\n\t\tgates[free].id, gates[free].busy = id, true\n\t}\n\treturn true\n}\n\n")
-	hb.WriteString("// Leave reopens the gate.\n//\n//go:norace\nfunc Leave(id int) {\n\tfor i := range gates {\n\t\tif gates[i].busy && gates[i].id == id {\n\t\t\tgates[i].busy = false\n\t\t\treturn\n\t\t}\n\t}\n}\n\n")
+	hb.WriteString("// gates serialise the x.Do(f) statements of the instrumented module cooperatively (see Enter).\nvar gates [64]struct {\n\tid    int\n\towner int\n\tdepth int\n}\n\n")
+	hb.WriteString("// CurTask is the simulated task that holds the token (maintained by the harness).\nvar CurTask int\n\n")
+	hb.WriteString("// Enter tries to pass the gate of a wrapped x.Do(f) statement.  Exactly one simulated task runs at a time,\n// so plain variables are enough; outside a simulation the gate is always open.  The gate is re-entrant for\n// the task that holds it (f may reach the same statement again: recursion, or a method that is merely called Do).\n//\n//go:norace\nfunc Enter(id int) bool {\n\tif Hook == nil || !Active {\n\t\treturn true\n\t}\n\tfree := -1\n\tfor i := range gates {\n\t\tif gates[i].depth > 0 && gates[i].id == id {\n\t\t\tif gates[i].owner == CurTask {\n\t\t\t\tgates[i].depth++\n\t\t\t\treturn true\n\t\t\t}\n\t\t\treturn false\n\t\t}\n\t\tif gates[i].depth == 0 && free < 0 {\n\t\t\tfree = i\n\t\t}\n\t}\n\tif free >= 0 {\n\t\tgates[free].id, gates[free].owner, gates[free].depth = id, CurTask, 1\n\t}\n\treturn true\n}\n\n")
+	hb.WriteString("// Leave undoes one Enter.\n//\n//go:norace\nfunc Leave(id int) {\n\tif Hook == nil || !Active {\n\t\treturn\n\t}\n\tfor i := range gates {\n\t\tif gates[i].depth > 0 && gates[i].id == id && gates[i].owner == CurTask {\n\t\t\tgates[i].depth--\n\t\t\treturn\n\t\t}\n\t}\n}\n\n")
+	hb.WriteString("// ResetGates opens every gate (called by the harness between runs).\n//\n//go:norace\nfunc ResetGates() {\n\tfor i := range gates {\n\t\tgates[i].depth = 0\n\t}\n}\n\n")
 	hb.WriteString("// Active is set by the harness around the concurrent phase of a run.\nvar Active bool\n\n// NoPreempt is kept for compatibility (always 0).\nvar NoPreempt int\n\n")
 	hb.WriteString("// SiteInfo describes one yield site.\ntype SiteInfo struct {\n\tFile string\n\tLine int\n\tFunc string\n\tFuncFirst bool\n\tGlobal bool\n}\n\n")
 	fmt.Fprintf(&hb, "// OpOnly is set when the module contains blocking synchronisation of its own.\nconst OpOnly = %v\n\n", d.OpOnly)
